@@ -1,13 +1,20 @@
 import OxiddModel.Util.Proto
 import OxiddModel.Tdd.Model
+import OxiddModel.Reorder.Model
 import Std.Data.HashMap
+import Std.Data.HashSet
 
 /-!
 Line-protocol driver `tdd` for the tree-level TDD model (property C11).
 
 ```
 mgr <nvars>                      -> ok
-order <v>*                       -> <l2v0> <l2v1> …      (full permutation, only while no handle exists)
+order <v>* [seq=1]               -> <l2v0> <l2v1> …      (set_var_order / set_var_order_seq; distinct variables,
+                                                         total or partial; live handles are rebuilt)
+clone <h> <a>                    -> ok
+gc                               -> <inner nodes stored after the collection>
+eq <a> <b>                       -> 1 | 0
+count <h>                        -> <node_count: distinct nodes including terminals>
 const <h> f|t|u                  -> <tree>
 var <h> <v>                      -> <tree>
 node <h> <v> <ht> <hu> <he>      -> <tree>               (reduce + insert; children strictly below v)
@@ -60,9 +67,16 @@ def St.define (s : St) (h : String) (t : TD) : St × String :=
   if s.handles.contains h then bad s
   else ({ s with handles := s.handles.insert h t }, showTree s.l2v t)
 
-/-- is `l2v` a permutation of `0..n`? -/
-def isPerm (n : Nat) (p : List Nat) : Bool :=
-  p.length == n && (List.range n).all (fun i => p.contains i)
+/-- all distinct subtrees of `t` (inner nodes and, if `leaves`, terminals) added to `acc` -/
+def subtrees (leaves : Bool) : TD → Std.HashSet TD → Std.HashSet TD
+  | leaf v, acc => if leaves then acc.insert (leaf v) else acc
+  | node l a b c, acc =>
+    if acc.contains (node l a b c) then acc
+    else subtrees leaves c (subtrees leaves b (subtrees leaves a (acc.insert (node l a b c))))
+
+/-- the store after a collection: the inner nodes reachable from the live handles -/
+def St.innerNodes (s : St) : Nat :=
+  (s.handles.fold (fun acc _ t => subtrees false t acc) {}).size
 
 def parseArgs (s : St) (n : Nat) (ws : List String) : Option (List (Nat × Option Bool)) :=
   ws.mapM fun w =>
@@ -85,13 +99,21 @@ def step (s : St) (line : String) : St × String :=
     | none => bad s
   | none, _ => bad s
   | some _, "mgr" :: _ => bad s
-  | some n, "order" :: vs =>
-    match vs.mapM pnat with
-    | some p =>
-      if isPerm n p && s.handles.isEmpty then
-        let l2v := p.toArray
-        let v2l := (Array.range n).map (fun v => (p.idxOf v))
-        ({ s with l2v := l2v, v2l := v2l }, joinSp (p.map toString))
+  | some n, "order" :: ws =>
+    match (ws.filter (fun w => !w.contains '=')).mapM pnat with
+    | some order =>
+      if order.all (· < n) && order.eraseDups.length == order.length
+          && (ws.filter (fun w => w.contains '=')).all (fun w => w == "seq=1" || w == "seq=0") then
+        -- `set_var_order` returns immediately for requests with at most one variable
+        let l2v := if order.length ≤ 1 then s.l2v else Reorder.newL2v s.l2v s.v2l order
+        let v2l := Id.run do
+          let mut a := Array.replicate n 0
+          for l in [0 : n] do
+            a := a.set! (l2v.getD l 0) l
+          return a
+        let π (l : Nat) : Nat := v2l.getD (s.l2v.getD l l) l
+        let hs := s.handles.fold (fun acc k t => acc.insert k (reorderTree π t)) ({} : Std.HashMap String TD)
+        ({ s with l2v := l2v, v2l := v2l, handles := hs }, joinSp (l2v.toList.map toString))
       else bad s
     | none => bad s
   | some _, ["const", h, c] =>
@@ -133,6 +155,14 @@ def step (s : St) (line : String) : St × String :=
           else bad s
         | none => bad s
       | _, _ => bad s
+    else if cmd == "clone" then
+      match s.handles.get? a with
+      | some t => if s.handles.contains h then bad s else ({ s with handles := s.handles.insert h t }, "ok")
+      | none => bad s
+    else if cmd == "eq" then
+      match s.handles.get? h, s.handles.get? a with
+      | some x, some y => (s, boolStr (x == y))
+      | _, _ => bad s
     else if cmd == "evalp" then
       match s.handles.get? h, s.nvars with
       | some t, some n =>
@@ -150,6 +180,11 @@ def step (s : St) (line : String) : St × String :=
     | none => bad s
   | some _, ["drop", h] =>
     if s.handles.contains h then ({ s with handles := s.handles.erase h }, "ok") else bad s
+  | some _, ["gc"] => (s, toString s.innerNodes)
+  | some _, ["count", h] =>
+    match s.handles.get? h with
+    | some t => (s, toString (subtrees true t {}).size)
+    | none => bad s
   | some _, ["dropall"] => ({ s with handles := {} }, "0")
   | some n, "evalp" :: h :: rest =>
     match s.handles.get? h with
